@@ -316,6 +316,16 @@ Definition new_interface (sub : bool) (name : str) (iid : option str) (parent : 
   add_interface_sliver parent (mk id KCP (Some itype) name lab) ;;;
   ret id.
 
+(* ... with add_interface_sliver looking the parent up first (a4fc126): differs from new_interface only when the parent is
+   not in the graph *)
+Definition new_interface_pf (sub : bool) (name : str) (iid : option str) (parent : str) (itype : str) (lab : bool) : M str :=
+  guard (negb (sub && match iid with None => true | _ => false end)) ETopology ;;;
+  id <- id_or_draw iid ;;
+  check_name KCP name ;;;
+  props parent ;;;
+  add_interface_sliver parent (mk id KCP (Some itype) name lab) ;;;
+  ret id.
+
 (* NetworkService.add_interface (network_service.py:373) on a handle whose cached interface list is
    `cache` (names): loaded when the handle is made, extended by every add_interface (fix 18a115a). *)
 Definition ns_add_interface (sub : bool) (s : str) (cache : list (option str)) (name : str) (iid : option str)
@@ -801,7 +811,8 @@ Definition run_op (sub : bool) (fl : flags) (hint : list str) (o : op) : M unit 
   | ODisconnect s i => need KNS s ;;; need KCP i ;;; public_disconnect fl i
   (* NetworkService.add_interface through the handle of a service that has been removed since (no resolution: the
      harness kept the handle); the name is new to the handle's cached list *)
-  | OStaleAddIface s name iid itype => new_interface sub name iid s itype false ;;; ret tt
+  | OStaleAddIface s name iid itype =>
+      (if fl_parent_first fl then new_interface_pf sub name iid s itype false else new_interface sub name iid s itype false) ;;; ret tt
   | OPeer a b => need KNS a ;;; need KNS b ;;; ns_peer fl sub a b
   | OUnpeer a b => need KNS a ;;; need KNS b ;;; ns_unpeer a b
   | OAddSub i name cid v => need KCP i ;;; iface_add_child sub i name cid v
